@@ -241,7 +241,7 @@ func (e *verifEnv) connStep() {
 	// peer; the same preceded / followed by two peers unknown to us (the list
 	// is then longer than any MaxOpenConnectionsPerTorrent used here);
 	// thorough also one unknown peer on either side
-	shapes := verif.Bound("neighbour_list_shapes", 4, 5)
+	shapes := verif.Bound("neighbour_list_shapes", 3, 5)
 	nAdd := e.np * shapes
 	c := verif.Choice("op", nAdd+e.np+2*e.np*verifNV)
 	switch {
